@@ -353,6 +353,7 @@ func c02Pairs(r *mc.Report, ssa bool, nreq int, idx *int) {
 					f = append(f, mc.Finding{Key: "C02:" + key, Msg: fmt.Sprintf("%+v: ", dev) + fmt.Sprintf(format, a...)})
 				}
 				x.Base.Restore(snap)
+				x.Hooks.Reset() // (one world per shard: the recorded hook calls would pile up - gigabytes over a shard's pairs)
 				common.VerifResetSSAMemo()
 				x.snapshotObserved()
 				for _, a := range []c02Act{a1, a2} {
